@@ -1080,43 +1080,50 @@ fn pad_integral(
     prefix: &str,
     write_digits: impl FnOnce(&mut fmt::Formatter<'_>) -> fmt::Result,
 ) -> fmt::Result {
+    // zero has one digit
+    let digits = std::cmp::max(digits, 1);
     let prefix_width = f.alternate() as usize * prefix.len() + f.sign_plus() as usize;
     let min_digits = f.width().unwrap_or(0).saturating_sub(prefix_width);
-    let mut pad = match usize::try_from(digits) {
+    let pad = match usize::try_from(digits) {
         Ok(digits) => min_digits.saturating_sub(digits),
         Err(_) => 0,
     };
 
-    if pad != 0 && f.sign_aware_zero_pad() {
+    #[inline]
+    fn write_prefix(f: &mut fmt::Formatter<'_>, prefix: &str) -> fmt::Result {
+        if f.sign_plus() {
+            f.write_char('+')?;
+        }
+        if f.alternate() {
+            f.write_str(prefix)?;
+        }
+        Ok(())
+    }
+
+    if f.sign_aware_zero_pad() {
+        // sign and prefix go first, then the zeros, fill and alignment are
+        // ignored
+        write_prefix(f, prefix)?;
         for _ in 0..pad {
             f.write_char('0')?;
         }
-        pad = 0;
-    }
-
-    if f.sign_plus() {
-        f.write_char('+')?;
-    }
-    if f.alternate() {
-        f.write_str(prefix)?;
+        return write_digits(f);
     }
 
     let fill_char = f.fill();
-    if pad != 0 {
-        let pad_front = match f.align() {
-            Some(fmt::Alignment::Left) => 0,
-            Some(fmt::Alignment::Center) => pad / 2,
-            _ => pad,
-        };
-        pad -= pad_front;
-        for _ in 0..pad_front {
-            f.write_char(fill_char)?;
-        }
+    let pad_front = match f.align() {
+        Some(fmt::Alignment::Left) => 0,
+        Some(fmt::Alignment::Center) => pad / 2,
+        _ => pad,
+    };
+    for _ in 0..pad_front {
+        f.write_char(fill_char)?;
     }
 
+    write_prefix(f, prefix)?;
     write_digits(f)?;
 
-    for _ in 0..pad {
+    for _ in 0..pad - pad_front {
         f.write_char(fill_char)?;
     }
 
